@@ -90,9 +90,10 @@ AddCount(r, t, el, count) ==
           ELSE [r1 EXCEPT !.counts = [k \in DOMAIN @ |-> IF k \in pos THEN <<el, @[k][2] + cnt>> ELSE @[k]]]
 
 (* the matches in order of start, the gaps between them are the counts *)
+RECURSIVE SortedMatches(_)
 SortedMatches(ms) ==
-  LET n == Cardinality(ms)
-  IN CHOOSE f \in [1..n -> ms] : \A i, j \in 1..n : i < j => f[i][1] < f[j][1]
+  IF ms = {} THEN <<>>
+  ELSE LET m == CHOOSE x \in ms : \A y \in ms : x[1] <= y[1] IN <<m>> \o SortedMatches(ms \ {m})
 RECURSIVE Walk(_, _, _, _)
 Walk(r, t, sm, k) ==      \* k-th match: its count is the gap up to the next match (or the end)
   IF ~r.ok \/ k > Len(sm) THEN r
